@@ -104,6 +104,7 @@ probes! {
     regen => "gen.candidates_redrawn_for_range_precondition",
     strat_q8 => "gen.stratified_first_event_P8E0_operand_pairs_of_65536",
     strat_q16 => "gen.stratified_first_event_P16E1_patterns_of_65536",
+    strat_q32 => "gen.stratified_first_event_P32E2_class_pairs_visited_of_230400_per_cycle",
     gen_fallback => "gen.no_valid_candidate_fallback",
     // ---- RNG engine
     rng_samples => "rng.samples",
